@@ -43,7 +43,7 @@ Definition holds_p (p : pc) : bool :=
   end.
 Definition holds_m (k : nat) (p : pc) : bool :=
   match p with
-  | CHold k' | GHold k' | UInM _ k' | IMeter k' _ | IInsts k' _ _ => Nat.eqb k' k
+  | CHold k' | AHold k' _ | GHold k' | UInM _ k' | IMeter k' _ | IInsts k' _ _ => Nat.eqb k' k
   | _ => false
   end.
 Definition holds_u (r : nat) (p : pc) : bool :=
